@@ -133,6 +133,10 @@ func (msg *Message) UnmarshalXML(d *xml.Decoder, start xml.StartElement) error {
 					err = d.DecodeElement(&msg.Subject, &tt)
 				case "error":
 					err = d.DecodeElement(&msg.Error, &tt)
+				default:
+					// An element we do not know: consume it, so that nothing inside it is taken for
+					// a child (or for the end) of this message
+					err = d.Skip()
 				}
 				if err != nil {
 					return err
